@@ -15,6 +15,7 @@ pub mod c13;
 pub mod c14;
 pub mod c15;
 pub mod c16;
+pub mod c17;
 pub mod c18;
 
 pub fn c03_targeted_small() -> Vec<String> {
@@ -39,6 +40,7 @@ macro_rules! dispatch {
             "C14" => c14::$f($ctx $(, $arg)?),
             "C15" => c15::$f($ctx $(, $arg)?),
             "C16" => c16::$f($ctx $(, $arg)?),
+            "C17" => c17::$f($ctx $(, $arg)?),
             "C18" => c18::$f($ctx $(, $arg)?),
             other => {
                 eprintln!("unknown monitor {other}");
